@@ -111,7 +111,7 @@ def check_pair(ctx, sc):
         ctx.fail("outcome-mismatch", f"req={pair[0]}:acc={pair[1]}:{cause}", f"requestor ended {ro}, acceptor ended {ao}; steps={req['steps']}; scenario {_brief(sc)}")
         return
     to = sc["timeouts"]
-    bound = 2 * (to["acse"] + to["dimse"] + to["network"]) + to["connection"] + 14.0
+    bound = L.time_bound(sc)
     last = max([e[0] for rec in (req["_rec"], out["_rec_acc"]) for e in rec.events] or [0.0])
     if last > bound:
         ctx.fail("too-slow", "bound", f"association took {last} virtual seconds (> {bound}); scenario {_brief(sc)}")
